@@ -619,6 +619,7 @@ FLAGS = [
     'assumed_caller_lb',  # assumed-shape dummy a(:) associated with (a section of) a caller array whose lower bound is not 1
     'act_muldiv',       # actual argument expression with * or / as top-level operator (otherwise written in parentheses)
     'member_uses_param',  # an internal procedure references a PARAMETER of the host (imported or local)
+    'int_uncalled',     # an internal subroutine that is never called stays in the program
 ]
 # probability (percent) of a flag being on; default FLAG_PCT
 FLAG_PCT = 45
@@ -1666,6 +1667,9 @@ def build(spec):
     order_ = []
     while first:
         order_.append(first.pop(gsite.i(0, len(first) - 1)))
+    if F('unmarked_mix'):
+        # a second, unmarked call to a callee that is also called with the pragma
+        order_.insert(order_.index('msub') + 1 + gsite.i(0, len(order_) - order_.index('msub') - 1), 'umsub')
     nfirst = len(order_)
     nsites = nfirst + b.n.get('sites', 0)
     callee_uses = {}
@@ -1685,6 +1689,9 @@ def build(spec):
         elem_only = kind == 'efun'
         if elem_only:
             kind = 'fun'
+        again = kind == 'umsub'
+        if again:
+            kind = 'msub'
         in_loop = (not uncond) and F('site_in_loop') and gsite.chance(45) and gen.free_loopvar(env) is not None
         lv = None
         if in_loop:
@@ -1694,7 +1701,7 @@ def build(spec):
             env.active_loops[lv] = (lo, hi)
         stmts, form = None, None
         if kind == 'msub' and subs:
-            if F('multi_site') and callee_uses:
+            if (F('multi_site') or again) and callee_uses:
                 cand = [s for s in subs if s['name'] in callee_uses] or subs
             else:
                 cand = [s for s in subs if s['name'] not in callee_uses] or (subs if F('multi_site') else [])
@@ -1782,6 +1789,12 @@ def build(spec):
         body += stmts
         body += witnesses(stmts, env)
         meta_sites.append({'kind': kind, 'form': form, 'where': where})
+    if 'int_uncalled' in b.fl:
+        unc = [s['name'] for s in int_subs if s['name'] not in callee_uses]
+        if unc and F('int_uncalled'):
+            b.use('int_uncalled')
+        elif unc:
+            ints_r = [r_ for r_ in ints_r if r_['name'] not in unc]
     body += filler(b.n.get('fill', 1))
     body.append(['assign', var('yi0'), ['b', '+', var('yi0'), var('lacci')]])
     body.append(['assign', var('yr0'), ['b', '+', var('yr0'), var('laccr')]])
